@@ -1,0 +1,16 @@
+//go:build verif
+
+// Contracts for package jsonpath, read by /verif/gvc (comment-only file; it
+// declares nothing and is compiled only with -tags verif).
+package jsonpath
+
+// The value a field reference denotes in a traveler. The lookup goes through the
+// external JSONPath library and structpb data; its result is named by the abstract
+// spec function pathLookup and is always a JSON kind.
+//@ func TravelerPathLookup
+//@   trusted
+//@   pure
+//@   ensures val: result == pathLookup(traveler, path)
+//@   ensures json: isjson(result)
+//@   ensures lists: isAList(result) ==> slen(alist(result)) >= 0 && soff(alist(result)) >= 0
+//@   ensures elems: isAList(result) ==> (forall j :: 0 <= j && j < slen(alist(result)) ==> isjson(anyat(alist(result), j)))
